@@ -59,13 +59,15 @@ fn gen_op(r: &mut Rng, nks: usize) -> Op {
         9..=12 => Op::Remove(k, gen_key(r)),
         13 | 14 => {
             let n = r.range(0, 5);
+            // a batch may name a key more than once (the last item wins); half of the batches do
+            let dedupe = r.chance(1, 2);
             let mut seen = std::collections::HashSet::new();
-            let mut items = vec![];
+            let mut items: Vec<(usize, Vec<u8>, Option<Vec<u8>>)> = vec![];
             for _ in 0..n {
                 let ks = r.range(0, nks - 1);
-                let key = gen_key(r);
-                if seen.insert((ks, key.clone())) {
-                    items.push((ks, key, if r.chance(3, 4) { Some(gen_val(r)) } else { None }));
+                let key = if !dedupe && !items.is_empty() && r.chance(1, 2) { let p = r.pick(&items); (p.0, p.1.clone()) } else { (ks, gen_key(r)) };
+                if !dedupe || seen.insert(key.clone()) {
+                    items.push((key.0, key.1, if r.chance(3, 4) { Some(gen_val(r)) } else { None }));
                 }
             }
             Op::Batch(items)
